@@ -32,7 +32,7 @@ fn cb(b: bool) -> &'static str { if b { "true" } else { "false" } }
 fn fv(v: &Value) -> Vec<f64> { f64_vec(v) }
 fn f(v: &Value) -> f64 { v.as_f64().unwrap() }
 fn strategy(dual: bool) -> ScalingStrategy { if dual { ScalingStrategy::Dual } else { ScalingStrategy::PrimalDual } }
-fn bad(what: &str) -> String { format!("(1%N (* {} *))", what) }
+fn bad(what: &str) -> String { format!("(3%N (* {} *))", what) }
 
 // ---------- one case: input -> Coq expression ----------
 fn run_case(op: &str, inp: &Value) -> String {
@@ -222,7 +222,7 @@ fn run_case_inner(op: &str, inp: &Value) -> String {
                 for c in calls {
                     let (sv, z, mu, dual) = (fv(&c["s"]), fv(&c["z"]), f(&c["mu"]), c["dual"].as_bool().unwrap());
                     let ok = k.update_scaling(&sv, &z, mu, strategy(dual));
-                    if !ok { parts.push("1%N".into()); continue; }
+                    if !ok { parts.push("3%N".into()); continue; }
                     let st = k.verif_state();
                     let fval = k.verif_barrier_dual(&z);
                     let (mut y, mut yz, mut work, mut diag) = (vec![0.0; n], vec![0.0; n], vec![0.0; n], vec![0.0; n]);
